@@ -5,6 +5,7 @@ import WebAuthnModel.Model.Cose
 import WebAuthnModel.Model.Origin
 import WebAuthnModel.Basic.Base64Url
 import WebAuthnModel.Spec.Cose
+import WebAuthnModel.Model.Ceremony
 /-
   wadriver: line-protocol interpreter of the model.  One JSON object per input line, one JSON
   object per output line; while an op runs, `{"ask":…}` lines may be written and are answered by
@@ -90,6 +91,15 @@ def handlePure (op : String) (j : Json) : Except String Json := do
   | "flags" =>
     let f := UInt8.ofNat (← getNat j "flags")
     return Json.mkObj [("up", flagsUP f), ("uv", flagsUV f), ("at", flagsAT f), ("ed", flagsED f)]
+  | "attObj.unmarshal" =>
+    let raw ← getHex j "data"
+    match unmarshalAttestationObject raw with
+    | .err => return Json.mkObj [("ok", false)]
+    | .unmodelled => return Json.mkObj [("unmodelled", true)]
+    | .ok ao rest =>
+      return Json.mkObj [("ok", true), ("fmt", hex ao.fmt), ("authData", hex ao.authData), ("rest", hex rest),
+        ("stmtKeys", Json.arr ((ao.stmt.map (fun e => hex e.1)).toArray)),
+        ("alg", Att.getAlgorithm ao.stmt), ("sig", hex (Att.getSignature ao.stmt))]
   | "alg.tables" =>
     let a ← getInt j "alg"
     return Json.mkObj [("hash", Cose.algHash a), ("x509", Cose.algX509 a),
@@ -119,9 +129,131 @@ def handlePure (op : String) (j : Json) : Except String Json := do
     return Json.mkObj [("match", labelWalk c r), ("loop", labelWalkLoop (c.length + 1) c r)]
   | _ => throw s!"unknown op {op}"
 
+def credJson (c : Credential) : Json :=
+  Json.mkObj [("id", hex c.id), ("owner", hex c.owner), ("pk", hex c.publicKey)]
+
+def parseCred (j : Json) : Except String Credential := do
+  return ⟨← getHex j "id", ← getHex j "owner", ← getHex j "pk"⟩
+
+def parseStore (j : Json) : Except String Store := do
+  (← getArr j "store").toList.mapM parseCred
+
+def callJson : Call → Json
+  | .get id => Json.mkObj [("get", hex id)]
+  | .set c => Json.mkObj [("set", credJson c)]
+
+def getFn (st : Store) (mode : String) : Bytes → GetOutcome :=
+  match mode with
+  | "notFound" => fun _ => .notFound
+  | "wrapped" => fun _ => .wrappedNotFound
+  | "err" => fun _ => .err
+  | _ => st.get
+
+def setFn (mode : String) : Credential → SetOutcome :=
+  match mode with
+  | "err" => fun _ => .err
+  | _ => fun _ => .ok
+
+def authErrStr : AuthErr → String
+  | .notAllowed => "notAllowed" | .storageNotFound => "storageNotFound" | .storageWrappedNotFound => "storageWrappedNotFound"
+  | .storageErr => "storageErr" | .userHandle => "userHandle" | .clientData => "clientData" | .type => "type"
+  | .challenge => "challenge" | .origin => "origin" | .authData => "authData" | .rpIdHash => "rpIdHash"
+  | .notPresent => "notPresent" | .notVerified => "notVerified" | .publicKey => "publicKey" | .signature => "signature"
+
+def regErrStr : RegErr → String
+  | .clientData => "clientData" | .type => "type" | .challenge => "challenge" | .origin => "origin" | .attObj => "attObj"
+  | .authData => "authData" | .rpIdHash => "rpIdHash" | .notPresent => "notPresent" | .notVerified => "notVerified"
+  | .noAttestedData => "noAttestedData" | .publicKey => "publicKey" | .algorithm => "algorithm" | .statement => "statement"
+  | .typeNotAllowed => "typeNotAllowed" | .formatNotAllowed => "formatNotAllowed" | .rawId => "rawId"
+  | .storageErr => "storageErr" | .differentUser => "differentUser" | .saveErr => "saveErr" | .unmodelled => "unmodelled"
+
+def parseVerifyOpts (j : Json) : Except String (List VerifyOption) := do
+  (← getArr j "verifyOpts").toList.mapM fun o =>
+    match o.getObjVal? "formats" with
+    | .ok _ => do return VerifyOption.allowedFormats (← getHexList o "formats")
+    | .error _ => do return VerifyOption.allowedTypes (← getHexList o "types")
+
+/-- apply the recorded calls of a ceremony to the real map (only `set` with outcome ok writes) -/
+def applyCalls (st : Store) (calls : List Call) (setMode : String) : Store :=
+  calls.foldl (fun s c => match c with
+    | .set cred => if setMode == "err" then s else s.insert cred
+    | .get _ => s) st
+
+def storeJson (st : Store) : Json := Json.arr (st.map credJson).toArray
+
+def doAuthenticate (j : Json) : Except String (Prog Json) := do
+  let origin ← getHex j "origin"
+  let st ← parseStore j
+  let getMode ← (getStr j "get" <|> pure "real")
+  let o : RequestOptions := ⟨← getHex j "challenge", ← getHexList j "allow", ← getHex j "uv"⟩
+  let a : Assertion := ⟨← getHex j "rawId", ← getHex j "cdj", ← getHex j "authData", ← getHex j "sig", ← getHex j "userHandle"⟩
+  let unmodelledKey := match st.get a.rawId with
+    | .found c => (match Cose.parse c.publicKey with | .unmodelled => true | _ => false)
+    | _ => false
+  return do
+    let rp ← newRP origin
+    let out ← verifyAuthentication rp o a (getFn st getMode)
+    let base := [("calls", Json.arr (out.calls.map callJson).toArray), ("store", storeJson st),
+                 ("unmodelled", Json.bool (unmodelledKey || authDataUnmodelled a.authenticatorData))]
+    match out.result with
+    | .ok c => pure (Json.mkObj ([("ok", Json.bool true), ("cred", credJson c)] ++ base))
+    | .error e => pure (Json.mkObj ([("ok", Json.bool false), ("class", Json.str (authErrStr e))] ++ base))
+
+def doRegister (j : Json) : Except String (Prog Json) := do
+  let origin ← getHex j "origin"
+  let st ← parseStore j
+  let getMode ← (getStr j "get" <|> pure "real")
+  let setMode ← (getStr j "set" <|> pure "real")
+  let o : CreationOptions := ⟨← getHex j "challenge", ← getHex j "userId", ← getIntList j "algs", ← getHexOpt j "authSelUV"⟩
+  let c : Attestation := ⟨← getHex j "rawId", ← getHex j "cdj", ← getHex j "attObj"⟩
+  let opts ← parseVerifyOpts j
+  let adUnmodelled := match unmarshalAttestationObject c.attestationObject with
+    | .ok ao _ => authDataUnmodelled ao.authData
+    | _ => false
+  return do
+    let rp ← newRP origin
+    let out ← verifyRegistration rp o c opts (getFn st getMode) (setFn setMode)
+    let st' := applyCalls st out.calls setMode
+    let base := [("calls", Json.arr (out.calls.map callJson).toArray), ("store", storeJson st')]
+    match out.result with
+    | .ok cr => pure (Json.mkObj ([("ok", Json.bool true), ("cred", credJson cr), ("unmodelled", Json.bool adUnmodelled)] ++ base))
+    | .error e => pure (Json.mkObj ([("ok", Json.bool false), ("class", Json.str (regErrStr e)),
+        ("unmodelled", Json.bool (adUnmodelled || e == .unmodelled))] ++ base))
+
+def doAttest (j : Json) : Except String (Prog Json) := do
+  let raw ← getHex j "attObj"
+  let cdHash ← getHex j "cdHash"
+  let verifier ← (getStr j "verifier" <|> pure "dispatch")
+  match unmarshalAttestationObject raw with
+  | .err => return pure (Json.mkObj [("decoded", false)])
+  | .unmodelled => return pure (Json.mkObj [("unmodelled", true)])
+  | .ok ao _ =>
+    let p : Prog (Option Att.Result) := match verifier with
+      | "none" => Att.verifyNone
+      | "packed" => Att.verifyPacked ao cdHash
+      | "fido-u2f" => Att.verifyU2F ao cdHash
+      | "android-key" => Att.verifyAndroidKey ao cdHash
+      | "android-safetynet" => Att.verifySafetyNet ao cdHash
+      | "apple" => Att.verifyApple ao cdHash
+      | "tpm" => Att.verifyTPM ao cdHash
+      | _ => Att.verify ao cdHash
+    return do
+      let r ← p
+      let um := authDataUnmodelled ao.authData
+      match r with
+      | some res => pure (Json.mkObj [("decoded", true), ("ok", true), ("type", res.type), ("x5c", Json.arr (res.x5c.map hex).toArray), ("unmodelled", um)])
+      | none => pure (Json.mkObj [("decoded", true), ("ok", false), ("unmodelled", um)])
+
 /-- ops that may ask oracle questions -/
 def handleProg (op : String) (j : Json) : Except String (Option (Prog Json)) := do
   match op with
+  | "authenticate" => return some (← doAuthenticate j)
+  | "register" => return some (← doRegister j)
+  | "attest" => return some (← doAttest j)
+  | "config" =>
+    let opts ← parseVerifyOpts j
+    let cfg := getVerifyConfig opts
+    return some (pure (Json.mkObj [("formats", Json.arr (cfg.formats.map hex).toArray), ("types", Json.arr (cfg.types.map hex).toArray)]))
   | "cose.verify" =>
     let raw ← getHex j "key"
     let data ← getHex j "data"
